@@ -114,12 +114,16 @@ def run_zone(arg):
         def get_modified_time(self):
             return self.mt
 
-    def decide(own_d, up_d, fr_d):
+    def decide(own_d, up_d, fr_d, depth=0):
+        """depth: number of calls WITHOUT a store between the upstream source and the stored call (the
+        upstream instant is handed down through them)."""
         plan = uberjob.Plan()
         reg = uberjob.Registry()
         so = MtStore(own_d)
         if up_d is not None:
             src = reg.source(plan, MtStore(up_d))
+            for _ in range(depth):
+                src = plan.call(lambda x: x, src)
             a = plan.call(lambda x: x, src)
         else:
             a = plan.call(lambda: 1)
@@ -138,7 +142,9 @@ def run_zone(arg):
                     x_d, x_r = rep(mx, kx)
                     events.append({"own": own_r, "up": x_r, "fr": NONE, "rebuilt": decide(own_d, x_d, None)})
                     events.append({"own": own_r, "up": NONE, "fr": x_r, "rebuilt": decide(own_d, None, x_d)})
-                    n += 2
+                    # the same decision with the upstream instant passed through 1 or 2 calls that have no store
+                    events.append({"own": own_r, "up": x_r, "fr": NONE, "rebuilt": decide(own_d, x_d, None, depth=1 + n // 2 % 2)})
+                    n += 3
     # real files: the library's own get_modified_time produces the naive-local datetime
     nfile = 0
     if with_files:
